@@ -52,6 +52,24 @@ CHECKS.update({
         level_note="Trusted: raw-lock event log order. Holds for the universes/arrangements produced.",
         technique="runtime monitoring: precedence-relation (ordering) checker over the raw-lock event log",
     ),
+    "C09": dict(
+        level_text="Exploration by runtime monitoring: every blocking raw operation issued inside a retrying-collection acquisition is checked at issue time - exact in the serialised scheduler - for 'not grantable while the caller holds a lock of another group' (an owned unit nested in the collection counts as one lock, as designed); completion is bounded progress: the episode must finish within the fair run-to-block phase after the random phase.",
+        design_ref="DESIGN.md §3 C09",
+        level_note="Trusted: audit lock grantability at issue time, scheduler. Owned units are treated as one lock (happylock blocks member by member inside a unit by design).",
+        technique="runtime monitoring: wait-while-holding detector on raw-lock events under a seeded scheduler + bounded-progress check",
+    ),
+    "C10": dict(
+        level_text="Exploration by runtime monitoring: an executable PoisonModel (must / may bits per Poisonable) is stepped alongside random histories of holds, panics, clear_poison and re-acquisitions through every route; is_poisoned() after every step and the Ok/Err of every Poisonable position of every acquisition must agree with it; a panic-free soak checks 'never spuriously poisoned'. One genuine defect is recorded as a known finding (scoped closures of collections do not poison).",
+        design_ref="DESIGN.md §3 C10, §5 D7",
+        level_note="Trusted: PoisonModel transitions (exec.rs section(), poisonfam.rs). Three-valued where the statement is silent (panics under shared holds).",
+        technique="runtime monitoring: reference-model (PoisonModel) comparison over generated panic histories",
+    ),
+    "C11": dict(
+        level_text="Fault enumeration by runtime monitoring: a typed panic is injected in the critical section of every (shape x mode x API flavour x key style) case and, under the seeded scheduler, in sections of concurrent programs with waiters; after the unwind is caught at the client boundary the monitors require the injected payload (not swallowed / replaced), an empty held set, no release audited as bad, an obtainable key, and progress of waiters (deadlock monitor / immediate re-acquisition).",
+        design_ref="DESIGN.md §3 C11",
+        level_note="Trusted: audit owner table + release audit, scheduler. User panics and raw-lock faults are never combined in one episode.",
+        technique="runtime monitoring with panic injection: owner-table, release-audit and key probes after caught unwinds",
+    ),
     "C13": dict(
         level_text="Exhaustive enumeration at runtime of the finite quiescent space: every shape of sizes 0..3 (0..4 thorough) x every assignment of {free, read-held, write-held} x try_lock/try_read x try/scoped_try x both wake policies; outcome compared with TryOracle, owner table compared before/after.",
         design_ref="DESIGN.md §3 C13",
